@@ -288,7 +288,7 @@ def install_std_extras(eng):
                 raise EngineAbort("PartialEq on a non-enum value: %s" % callee)
         eq = eng.discriminant(st, a).t == eng.discriminant(st, b).t
         return Outcome(BoolV(eq if callee.endswith("eq") else z3.Not(eq)))
-    S(r"^<\w+ as PartialEq>::(eq|ne)$", s_enum_eq)
+    S(r"^<(?!ErrorKind)\w+ as PartialEq>::(eq|ne)$", s_enum_eq)
     S(r"^Option::<.*>::is_some$", per_variant(lambda e, st, c, v, a: Outcome(BoolV(v.vname == "Some"))))
     S(r"^Option::<.*>::is_none$", per_variant(lambda e, st, c, v, a: Outcome(BoolV(v.vname == "None"))))
     S(r"^Result::<.*>::is_ok$", per_variant(lambda e, st, c, v, a: Outcome(BoolV(v.vname == "Ok"))))
